@@ -718,6 +718,7 @@ func init() {
 	registerURL()
 	registerStreams()
 	registerTLS()
+	registerWS()
 	for _, f := range intrinsicsLate {
 		f()
 	}
